@@ -213,9 +213,9 @@ theorem progs_confined : Confined progs := by
     rcases hs with rfl | rfl <;> simp [Step.Confined]
   · simp [h] at hs
 
-def m0 : Mem := fun l => match l.region with
+def m0 : Mem := ⟨fun l => match l.region with
   | .sharedRO => 10 + l.idx
-  | _ => 0
+  | _ => 0⟩
 
 /-- the hypotheses of T1 are satisfiable and the conclusion is not trivial: in the interleaving
 `[1,0,0,1]` thread 1 ends with `priv 1 [1] = (10+2) + 11 = 23`, thread 0 with `22`. -/
@@ -237,8 +237,8 @@ def racy : Progs := fun t =>
   else if t = 1 then [⟨⟨.sharedRO, 0⟩, [⟨.sharedRO, 0⟩], fun vs => vs.foldl (· + ·) 0 * 2⟩]
   else []
 
-example : (run racy [0, 1] (init fun _ => 0)).mem ⟨.sharedRO, 0⟩ = 2 ∧
-    (run racy [1, 0] (init fun _ => 0)).mem ⟨.sharedRO, 0⟩ = 1 := by
+example : (run racy [0, 1] (init ⟨fun _ => 0⟩)).mem ⟨.sharedRO, 0⟩ = 2 ∧
+    (run racy [1, 0] (init ⟨fun _ => 0⟩)).mem ⟨.sharedRO, 0⟩ = 1 := by
   constructor <;> decide
 
 /-- T2 is about non-trivial traces: idiom (a), 2 kernel steps, exception after 1 step -/
